@@ -16,7 +16,7 @@ import (
 // the sample lines of dnsdata/data_test.go followed by boundary shapes; a leading '?'
 // marks a line that makes no claim of being well formed (the '?' is not part of a
 // record type, such lines are rejected with ErrBadRType)
-const nSampleLines = 58
+const nSampleLines = 57
 
 var fixedLines = []string{
 	"%a1,2001:db8::/32,m2",
